@@ -691,7 +691,7 @@ pub fn probe_known(property: &str) -> bool {
         }
         let Some(entry) = known.open(prop, sig) else { continue };
         let code = code.replace("{{", "{").replace("}}", "}");
-        let case = crate::batch::CaseSrc { idx: 0, code, table: String::new(), ref_from: None };
+        let case = crate::batch::CaseSrc { idx: 0, code, table: String::new(), ref_from: None, ctl_from: None };
         let main = |_: &[&crate::batch::CaseSrc]| "fn main() { let _ = case_0; }\n".to_string();
         let res = crate::batch::build_and_run_src(&format!("jvp_{}", prop.to_lowercase()), render::file_header(), &[case], &main, &[], &[], "", 120, 1);
         if !res.compile_fail.is_empty() {
